@@ -1,7 +1,7 @@
 /-
 Lemmas/Pool — simulation lemmas for the pooled objects of Model/Pool: every operation's visible
 result depends on the visible part of the object only; the stale part is never read before it is
-overwritten (except by a panicking `ParseBytes`, which is characterised exactly).
+overwritten (`ParseBytes` included: its decoder has no panic point, so it always finishes the slot).
 -/
 import Teleport.Model.Pool
 namespace Teleport
@@ -10,27 +10,16 @@ open Bytes
 
 /-! ### the scanner overwrites the slot it is given -/
 
-theorem scanNext_rest (old old' : KV) (b : Bytes) : (scanNext old b).rest = (scanNext old' b).rest := by
-  simp only [scanNext]
-  split <;> split <;> (try split) <;> simp_all
+theorem scanNext_rest (old old' : KV) (b : Bytes) : (scanNext old b).rest = (scanNext old' b).rest := rfl
 
-theorem scanNext_panicked (old old' : KV) (b : Bytes) :
-    (scanNext old b).panicked = (scanNext old' b).panicked := by
-  simp only [scanNext]
-  split <;> split <;> (try split) <;> simp_all
-
-/-- `argsScanner.next` writes both the key and the value of `*kv` whenever it returns: the slot's
-    previous content does not matter. -/
-theorem scanNext_kv (old old' : KV) (b : Bytes) (h : (scanNext old b).panicked = false) :
-    (scanNext old b).kv = (scanNext old' b).kv := by
-  simp only [scanNext] at h ⊢
-  split <;> split <;> (try split) <;> simp_all
+/-- `argsScanner.next` writes both the key and the value of `*kv` (it always returns: the decoder
+    has no panic point): the slot's previous content does not matter. -/
+theorem scanNext_kv (old old' : KV) (b : Bytes) : (scanNext old b).kv = (scanNext old' b).kv := rfl
 
 /-! ### ParseBytes -/
 
 theorem parseLoop_indep (fuel : Nat) : ∀ (kept : List KV) (cur cur' : KV) (stale stale' : List KV) (b : Bytes),
-    (PArgs.parseLoop fuel kept cur stale b).1 = (PArgs.parseLoop fuel kept cur' stale' b).1 ∧
-    (PArgs.parseLoop fuel kept cur stale b).2.2.2 = (PArgs.parseLoop fuel kept cur' stale' b).2.2.2 := by
+    (PArgs.parseLoop fuel kept cur stale b).1 = (PArgs.parseLoop fuel kept cur' stale' b).1 := by
   induction fuel with
   | zero => intros; simp [PArgs.parseLoop]
   | succ n ih =>
@@ -39,40 +28,21 @@ theorem parseLoop_indep (fuel : Nat) : ∀ (kept : List KV) (cur cur' : KV) (sta
     by_cases hb : b.isEmpty
     · simp [hb]
     · simp only [hb]
-      have hp := scanNext_panicked cur cur' b
       have hr := scanNext_rest cur cur' b
-      by_cases hpan : (scanNext cur b).panicked = true
-      · have hpan' : (scanNext cur' b).panicked = true := by rw [← hp]; exact hpan
-        simp [hpan, hpan']
-      · have hf : (scanNext cur b).panicked = false := by simpa using hpan
-        have hf' : (scanNext cur' b).panicked = false := by rw [← hp]; exact hf
-        have hk := scanNext_kv cur cur' b hf
-        simp only [hf, hf', Bool.false_eq_true, ↓reduceIte]
-        rw [← hk, ← hr]
-        by_cases hne : PArgs.nonEmptyKV (scanNext cur b).kv = true
-        · simp only [hne, ↓reduceIte]
-          exact ih _ _ _ _ _ _
-        · simp only [hne, Bool.false_eq_true, ↓reduceIte]
-          exact ih _ _ _ _ _ _
+      have hk := scanNext_kv cur cur' b
+      simp only [Bool.false_eq_true, ↓reduceIte]
+      rw [← hk, ← hr]
+      by_cases hne : PArgs.nonEmptyKV (scanNext cur b).kv = true
+      · simp only [hne, ↓reduceIte]
+        exact ih _ _ _ _ _ _
+      · simp only [hne, Bool.false_eq_true, ↓reduceIte]
+        exact ih _ _ _ _ _ _
 
-/-- whether `ParseBytes(b)` panics depends on `b` only. -/
-theorem parseBytes_panics (a : PArgs) (b : Bytes) : (a.parseBytes b).2 = PArgs.parsePanics b := by
-  have h := (parseLoop_indep (b.length + 1) [] (PArgs.allocSlot (a.live ++ a.stale)).1 ([], [])
-    (PArgs.allocSlot (a.live ++ a.stale)).2 [] b).2
-  unfold PArgs.parseBytes PArgs.parsePanics
-  simp only []
-  split <;> simp_all
-
-/-- a `ParseBytes(b)` that does not panic leaves exactly the pairs decoded from `b`, whatever the
-    object held before (visible or stale). -/
-theorem parseBytes_live (a : PArgs) (b : Bytes) (h : PArgs.parsePanics b = false) :
-    (a.parseBytes b).1.live = PArgs.parseLive b := by
-  have hp := parseBytes_panics a b
-  have h1 := (parseLoop_indep (b.length + 1) [] (PArgs.allocSlot (a.live ++ a.stale)).1 ([], [])
-    (PArgs.allocSlot (a.live ++ a.stale)).2 [] b)
-  unfold PArgs.parseBytes PArgs.parsePanics PArgs.parseLive at *
-  simp only [] at *
-  split <;> simp_all
+/-- `ParseBytes(b)` leaves exactly the pairs decoded from `b`, whatever the object held before
+    (visible or stale) — for every `b`. -/
+theorem parseBytes_live (a : PArgs) (b : Bytes) : (a.parseBytes b).live = PArgs.parseLive b := by
+  unfold PArgs.parseBytes PArgs.parseLive
+  exact parseLoop_indep (b.length + 1) [] _ _ _ _ b
 
 /-! ### Args: simulation -/
 
@@ -82,7 +52,7 @@ def ASim (a f : PArgs) : Prop := a.live = f.live
 theorem ASim.obs {a f : PArgs} (h : ASim a f) : a.obs = f.obs := by
   unfold ASim at h; simp [PArgs.obs, h]
 
-theorem args_step_sim {a f : PArgs} (h : ASim a f) (op : AOp) (hp : PArgs.opPanics op = false) :
+theorem args_step_sim {a f : PArgs} (h : ASim a f) (op : AOp) :
     ASim (a.step op).1 (f.step op).1 ∧ (a.step op).2 = (f.step op).2 := by
   unfold ASim at *
   cases op with
@@ -93,12 +63,8 @@ theorem args_step_sim {a f : PArgs} (h : ASim a f) (op : AOp) (hp : PArgs.opPani
   | del k => simp [PArgs.step, PArgs.del, h]
   | peek k => simp [PArgs.step, PArgs.peek, h]
   | has k => simp [PArgs.step, PArgs.has, h]
-  | parse b =>
-    simp only [PArgs.opPanics] at hp
-    simp [PArgs.step, parseBytes_panics, parseBytes_live, hp]
-  | parseStr b =>
-    simp only [PArgs.opPanics] at hp
-    simp [PArgs.step, PArgs.parseStr, parseBytes_panics, parseBytes_live, hp]
+  | parse b => simp [PArgs.step, parseBytes_live]
+  | parseStr b => simp [PArgs.step, PArgs.parseStr, parseBytes_live]
   | query => simp [PArgs.step, PArgs.queryString, h]
   | reset => simp [PArgs.step, PArgs.reset]
   | copyFrom src =>
@@ -106,15 +72,14 @@ theorem args_step_sim {a f : PArgs} (h : ASim a f) (op : AOp) (hp : PArgs.opPani
     refine ⟨?_, trivial⟩
     split <;> split <;> rfl
 
-theorem args_run_sim (ops : List AOp) : ∀ {a f : PArgs}, ASim a f → (∀ op ∈ ops, PArgs.opPanics op = false) →
-    a.run ops = f.run ops := by
+theorem args_run_sim (ops : List AOp) : ∀ {a f : PArgs}, ASim a f → a.run ops = f.run ops := by
   induction ops with
   | nil => intros; rfl
   | cons op ops ih =>
-    intro a f h hp
-    have hs := args_step_sim h op (hp op (by simp))
+    intro a f h
+    have hs := args_step_sim h op
     simp only [PArgs.run]
-    rw [hs.2, hs.1.obs, ih hs.1 (fun o ho => hp o (by simp [ho]))]
+    rw [hs.2, hs.1.obs, ih hs.1]
 
 /-! ### XferPipe: simulation -/
 
@@ -270,8 +235,7 @@ theorem msg_pack_sim (reg : Registry) (limit : Nat) {m f : PMsg} (h : MSim m f) 
     simp only []
     exact ⟨{ h with status := by simp [h.status], md := hq, size := rfl }, trivial⟩
 
-theorem msg_step_sim (reg : Registry) (limit : Nat) {m f : PMsg} (h : MSim m f) (op : MOp)
-    (hp : op.panics = false) :
+theorem msg_step_sim (reg : Registry) (limit : Nat) {m f : PMsg} (h : MSim m f) (op : MOp) :
     MSim (m.step reg limit op).1 (f.step reg limit op).1 ∧ (m.step reg limit op).2 = (f.step reg limit op).2 := by
   cases op with
   | setSeq n => exact ⟨{ h with seq := rfl }, rfl⟩
@@ -280,7 +244,7 @@ theorem msg_step_sim (reg : Registry) (limit : Nat) {m f : PMsg} (h : MSim m f) 
   | setStatus s => exact ⟨{ h with status := rfl }, rfl⟩
   | statusInit => exact ⟨{ h with status := by simp [PMsg.step, h.status] }, rfl⟩
   | mdOp op =>
-    have hs := args_step_sim h.md op (by simpa [MOp.panics] using hp)
+    have hs := args_step_sim h.md op
     exact ⟨{ h with md := hs.1 }, hs.2⟩
   | setCodec c => exact ⟨{ h with bodyCodec := rfl }, rfl⟩
   | setBody b => exact ⟨{ h with body := rfl }, rfl⟩
@@ -301,14 +265,14 @@ theorem msg_step_sim (reg : Registry) (limit : Nat) {m f : PMsg} (h : MSim m f) 
     exact ⟨rfl, rfl, rfl, rfl, rfl, rfl, rfl, rfl, rfl, rfl, rfl⟩
 
 theorem msg_run_sim (reg : Registry) (limit : Nat) (ops : List MOp) : ∀ {m f : PMsg}, MSim m f →
-    (∀ op ∈ ops, op.panics = false) → m.run reg limit ops = f.run reg limit ops := by
+    m.run reg limit ops = f.run reg limit ops := by
   induction ops with
   | nil => intros; rfl
   | cons op ops ih =>
-    intro m f h hp
-    have hs := msg_step_sim reg limit h op (hp op (by simp))
+    intro m f h
+    have hs := msg_step_sim reg limit h op
     simp only [PMsg.run]
-    rw [hs.2, hs.1.obs, ih hs.1 (fun o ho => hp o (by simp [ho]))]
+    rw [hs.2, hs.1.obs, ih hs.1]
 
 /-! ### handlerCtx: simulation -/
 
@@ -359,7 +323,7 @@ def startW (w : Bool) : COp → Bool
   | _ => w
 
 theorem ctx_step_sim (reg : Registry) (limit : Nat) {w : Bool} {c f : PCtx} (h : CSim w c f) (op : COp)
-    (hp : op.panics = false) (hw : ∀ t, op = .recordCost t → w = true) :
+    (hw : ∀ t, op = .recordCost t → w = true) :
     CSim (startW w op) (c.step reg limit op).1 (f.step reg limit op).1 ∧
     (c.step reg limit op).2 = (f.step reg limit op).2 := by
   cases op with
@@ -379,10 +343,10 @@ theorem ctx_step_sim (reg : Registry) (limit : Nat) {w : Bool} {c f : PCtx} (h :
     have hs := h.start (hw now rfl)
     exact ⟨{ h with cost := by simp [PCtx.step, hs] }, rfl⟩
   | inOp op =>
-    have hs := msg_step_sim reg limit h.input op (by simpa [COp.panics] using hp)
+    have hs := msg_step_sim reg limit h.input op
     exact ⟨{ h with input := hs.1 }, hs.2⟩
   | outOp op =>
-    have hs := msg_step_sim reg limit h.output op (by simpa [COp.panics] using hp)
+    have hs := msg_step_sim reg limit h.output op
     exact ⟨{ h with output := hs.1 }, hs.2⟩
 
 theorem startSafe_cons (w : Bool) (op : COp) (ops : List COp) (h : startSafe w (op :: ops) = true) :
@@ -391,15 +355,15 @@ theorem startSafe_cons (w : Bool) (op : COp) (ops : List COp) (h : startSafe w (
   rcases h with ⟨h1, h2⟩; subst h1; exact h2
 
 theorem ctx_run_sim (reg : Registry) (limit : Nat) (ops : List COp) : ∀ {w : Bool} {c f : PCtx}, CSim w c f →
-    (∀ op ∈ ops, op.panics = false) → startSafe w ops = true → c.run reg limit ops = f.run reg limit ops := by
+    startSafe w ops = true → c.run reg limit ops = f.run reg limit ops := by
   induction ops with
   | nil => intros; rfl
   | cons op ops ih =>
-    intro w c f h hp hs
+    intro w c f h hs
     have hc := startSafe_cons w op ops hs
-    have hst := ctx_step_sim reg limit h op (hp op (by simp)) hc.1
+    have hst := ctx_step_sim reg limit h op hc.1
     simp only [PCtx.run]
-    rw [hst.2, hst.1.obs, ih hst.1 (fun o ho => hp o (by simp [ho])) hc.2]
+    rw [hst.2, hst.1.obs, ih hst.1 hc.2]
 
 /-! ### socket -/
 
